@@ -81,7 +81,7 @@ func NewLevelListFromDocument(fs storage.FileSystem, dataOwnership kv.DataOwners
 }
 
 func (ll *LevelList) Get(key []byte) (kv.Entry, error) {
-	for t := range ll.AllTablesForKey(key) {
+	for t := range ll.tablesForKey(key, true) {
 		v, err := t.Get(key)
 		if err != nil {
 			if err == kv.ErrNotFound {
@@ -186,9 +186,21 @@ func (ll *LevelList) DescendLevels(offsets ...int) iter.Seq[Level] {
 }
 
 func (ll *LevelList) AllTablesForKey(key []byte) iter.Seq[*Table] {
+	return ll.tablesForKey(key, false)
+}
+
+// tablesForKey yields the tables that may hold the key, level by level. Level 0
+// tables can overlap; with l0NewestFirst they are visited from the most recently
+// added to the oldest so that a lookup sees the latest write first.
+func (ll *LevelList) tablesForKey(key []byte, l0NewestFirst bool) iter.Seq[*Table] {
 	return func(yield func(*Table) bool) {
 		// go through L0 and collect any table that might have the key
-		for t := range ll.At(0).AllTables() {
+		l0Tables := ll.At(0).tables.Slice()
+		if l0NewestFirst {
+			l0Tables = slices.Clone(l0Tables)
+			slices.Reverse(l0Tables)
+		}
+		for _, t := range l0Tables {
 			if t.RangeContainsKey(key) {
 				if !yield(t) {
 					return
